@@ -1,10 +1,12 @@
 """Property id -> check function."""
 import json
 import checks_ns
+import checks_idm
 
 CHECKS = {
     "C01": checks_ns.check_c01,
     "C05": checks_ns.check_c05,
+    "C15": checks_idm.check_c15,
 }
 
 
